@@ -211,10 +211,18 @@ def run(ctx):
         nb = rng.range(1, 4)
         specs = [[proj.gen_range_spec(rng, ty) for _ in range(rng.weighted([(4, 1), (3, 2), (2, 3), (1, 4)]))] for _ in range(nb)]
         items = [ty]
+
+        def as_written(sp):
+            # a count that is a plain number may be written as a JSON number (integer in any range type, float in float types)
+            if re.fullmatch(r"-?\d+", sp) and rng.chance(1, 2):
+                return proj.num(int(sp))
+            if ty in ("f32", "f64") and re.fullmatch(r"-?\d+\.\d+", sp) and rng.chance(1, 3):
+                return proj.F(sp)
+            return sp
         for bi, ss in enumerate(specs):
             val = f"B{bi}:{{{{ count }}}}"
             if rng.chance(1, 2):
-                items.append(proj.A([val] + ss))
+                items.append(proj.A([val] + [as_written(x) for x in ss]))
             else:
                 items.append(proj.O([("count", ss[0] if len(ss) == 1 else proj.A(ss)), ("value", val)]))
         items.append(proj.A(["FB:{{ count }}"]))
